@@ -12,7 +12,10 @@ Transcribes pysph/tools/interpolator.py :
   (pysph/tools/sph_evaluator.py) as a state machine over object identities,
   and the staging loop of `Interpolator.interpolate` (requested property ->
   `temp_prop` of every source array, `0.0` for an array without the property)
-  over histories that include earlier `interpolate` calls (end of this file).
+  over histories that include earlier `interpolate` calls, and the index maps
+  between the caller's N-d coordinate arrays, the target particles
+  (`_create_particle_array`: `ravel`) and the returned array (`interpolate`:
+  `result.shape = self.shape; squeeze`) (end of this file).
 
 The compiled evaluator (acceleration_eval_cython.mako) runs, for one group and
 one destination particle: `initialize`, then for every source array in the order
